@@ -161,19 +161,32 @@ def try_replay(e, mod, target, kind, ob, seed):
     def run(decoded, via):
         ctx = rp.Ctx(e)
         args = {}
+        saved_globals = []
         for nme in names:
             if nme in con.ghost:
                 continue
-            args[nme] = ctx.real(decoded[nme])
+            val = ctx.real(decoded[nme])
+            if nme.startswith("$g:"):
+                modname, _, attr = nme[3:].rpartition(".")
+                m_ = importlib.import_module(modname)
+                saved_globals.append((m_, attr, getattr(m_, attr, None)))
+                setattr(m_, attr, val)
+                continue
+            args[nme] = val
         call = native
-        if "self" in args and not getattr(mod, "NATIVE", {}).get(target):
-            slf = args.pop("self")
-            meth = target.split(":")[1].rsplit(".", 1)[1]
-            bound = getattr(slf, meth)
-            call = lambda **kw: bound(**kw)   # noqa: E731
-            info = rp.native_check(target, con, {**args, "self": slf}, lambda self=None, **kw: bound(**kw))
-        else:
-            info = rp.native_check(target, con, args, call)
+        try:
+            if "self" in args and not getattr(mod, "NATIVE", {}).get(target):
+                slf = args.pop("self")
+                meth = target.split(":")[1].rsplit(".", 1)[1]
+                bound = getattr(slf, meth)
+                info = rp.native_check(target, con, {**args, "self": slf}, lambda self=None, **kw: bound(**kw))
+            else:
+                info = rp.native_check(target, con, args, call)
+        finally:
+            for m_, attr, old_ in saved_globals:
+                setattr(m_, attr, old_)
+        if saved_globals:
+            info["globals"] = {f"{m_.__name__}.{attr}": repr(getattr(m_, attr))[:0] or "set for the call" for m_, attr, _ in saved_globals}
         info["via"] = via
         return info
     # 1. counter-model
